@@ -127,6 +127,7 @@ def shrink(run, text, data, budget=25):
 
 def oracle(run, deep):
     """Metamorphic checks on the implementation alone."""
+    mutated_documents(run)
     g = ec.Gen(run.rng, tick_p=0.0, hist={})
     n = run.n(300, 4000) * (3 if deep else 1)
     for _ in range(n):
@@ -152,6 +153,33 @@ def oracle(run, deep):
                 run.fail("violation", "metamorphic variant (%s) of a program evaluates differently" % name,
                          {"program": text, "variant": vt, "data": data, "observed": repr(got), "original": repr(base)})
                 return
+
+
+def mutated_documents(run):
+    """One parsed Statement (and one engine) evaluated repeatedly on ONE document object that the host edits in place
+    between the calls: every evaluation must see the document as it is now (= a freshly parsed statement on a deep copy)."""
+    import copy
+    import yaql
+    texts = ["$", "$.items.len()", "$.items.select($.n).toList()", "$.items.where($.n > 1).len()", "$.limit + 1",
+             "let(k => $.limit) -> $.items.where($.n > $k).select($.n).toList()", "$.tags", "$.items[0].n", "$.items.n"]
+    eng = ec.engine()
+    for text in texts:
+        stmt = eng(text)
+        doc = {"limit": 1, "items": [{"n": 1}, {"n": 2}], "tags": ["a"]}
+        edits = [lambda d: d["items"].append({"n": 3}), lambda d: d.__setitem__("limit", 2),
+                 lambda d: d["items"][0].__setitem__("n", 9), lambda d: d["tags"].append("b"), lambda d: d["items"].pop()]
+        for step in range(len(edits) + 1):
+            got = ec.run_real(text, doc, stmt=stmt)[1]
+            want = ec.run_real(text, copy.deepcopy(doc), stmt=yaql.YaqlFactory().create()(text))[1]
+            run.case(("mutated", text, step), nontrivial=step > 0)
+            run.count("mutated_document_step")
+            if repr(got) != repr(want):
+                run.fail("violation", "a statement evaluated again on a document the host edited in place does not see the current "
+                                      "document (`$` is not the data passed to evaluate)",
+                         {"program": text, "edits_applied": step, "document_now": repr(doc), "observed": repr(got), "required": repr(want)})
+                return
+            if step < len(edits):
+                edits[step](doc)
 
 
 def load_corpus(pid):
